@@ -6,6 +6,7 @@
 #include "seeds.hpp"
 extern "C" {
 #include <ksi/signature_builder.h>
+#include <ksi/verification_rule.h>
 #include <ksi/hashchain.h>
 #include <ksi/net.h>
 }
@@ -15,7 +16,11 @@ extern "C" const char *harness_id() { return "C11"; }
 void harness_init() {}
 size_t harness_max_len() { return 1500; }
 
-static const KSI_Policy *policyNo(int i) { switch (i) { case 0: return KSI_VERIFICATION_POLICY_INTERNAL; case 1: return KSI_VERIFICATION_POLICY_CALENDAR_BASED; case 2: return KSI_VERIFICATION_POLICY_KEY_BASED; case 3: return KSI_VERIFICATION_POLICY_PUBLICATIONS_FILE_BASED; case 4: return KSI_VERIFICATION_POLICY_USER_PUBLICATION_BASED; case 5: return KSI_VERIFICATION_POLICY_GENERAL; default: return KSI_VERIFICATION_POLICY_EMPTY; } }
+// two user-composed policies built from exported rules: the calendar input check alone (no chain-consistency rule runs before it), and that check followed by the consistency rule
+static const KSI_Policy *customPolicy(int which) { static KSI_Policy *p[2] = {nullptr, nullptr}; static KSI_CTX *pc = nullptr; static const KSI_Rule r0[] = {{KSI_RULE_TYPE_BASIC, (const void *)KSI_VerificationRule_CalendarHashChainInputHashVerification}, {KSI_RULE_TYPE_BASIC, nullptr}};
+    static const KSI_Rule r1[] = {{KSI_RULE_TYPE_BASIC, (const void *)KSI_VerificationRule_CalendarHashChainInputHashVerification}, {KSI_RULE_TYPE_BASIC, (const void *)KSI_VerificationRule_AggregationHashChainConsistency}, {KSI_RULE_TYPE_BASIC, nullptr}};
+    if (!pc) { KSI_CTX_new(&pc); KSI_Policy_create(pc, r0, "calendar-input-only", &p[0]); KSI_Policy_create(pc, r1, "calendar-input-then-consistency", &p[1]); } return p[which & 1]; }
+static const KSI_Policy *policyNo(int i) { if (i == 7 || i == 8) return customPolicy(i - 7); switch (i) { case 0: return KSI_VERIFICATION_POLICY_INTERNAL; case 1: return KSI_VERIFICATION_POLICY_CALENDAR_BASED; case 2: return KSI_VERIFICATION_POLICY_KEY_BASED; case 3: return KSI_VERIFICATION_POLICY_PUBLICATIONS_FILE_BASED; case 4: return KSI_VERIFICATION_POLICY_USER_PUBLICATION_BASED; case 5: return KSI_VERIFICATION_POLICY_GENERAL; default: return KSI_VERIFICATION_POLICY_EMPTY; } }
 struct VArgs { int policy; int hashMode; /* 0 absent 1 equal 2 different */ uint64_t level; bool extending; };
 struct VRes { int res, result, error; bool operator==(const VRes &o) const { return res == o.res && result == o.result && error == o.error; } };
 struct Live { KSI_Signature *sig; Bytes birth; Bytes doc; std::string origin; uint64_t salt; };
@@ -68,7 +73,7 @@ static void runHistory(Dec d /* by value: both cache configurations replay the s
         case 0: if (pool.size() < 4) { addParsed(); what = "parse"; } break;
         case 1: { KSI_Signature *cl = nullptr; int res = KSI_Signature_clone(pool[i].sig, &cl); what = "clone " + num((long long)i); if (res != KSI_OK) { VF_FAIL(c, "C11:clone-failed", "clone failed res=" + num(res)); break; } Bytes cb = serializeSig(cl); if (cb != pool[i].birth) VF_FAIL(c, "C11:clone-serializes-differently", "clone of signature " + num((long long)i) + " serializes differently | " + trace);
             if (pool.size() < 4) { Live l = pool[i]; l.sig = cl; l.origin = "clone of " + pool[i].origin; pool.push_back(l); } else KSI_Signature_free(cl); trace += what + " "; break; }
-        case 2: case 3: case 4: case 5: case 6: { VArgs a; a.policy = d.pick(3) == 0 ? (int)d.pick(7) : 0; a.hashMode = (int)d.pick(3); static const uint64_t lv[] = {0, 0, 1, 3, 200, 255, 256, 0x100000000ULL}; a.level = lv[d.pick(8)]; a.extending = d.flag();
+        case 2: case 3: case 4: case 5: case 6: { VArgs a; a.policy = d.pick(3) == 0 ? (int)d.pick(9) : 0; if (a.policy >= 7) c.cls("policy:user-composed-from-exported-rules"); a.hashMode = (int)d.pick(3); static const uint64_t lv[] = {0, 0, 1, 3, 200, 255, 256, 0x100000000ULL, 2, 4, 5, 6}; a.level = lv[d.pick(a.policy >= 7 ? 12 : 8)]; a.extending = d.flag();
             bool withFile = upf && d.flag(); VRes got = doVerify(ctx, pool[i].sig, pool[i].doc, a, withFile ? upf : nullptr); if (withFile) c.cls("verify:with-user-publications-file"); what = "verify " + num((long long)i) + " p" + num(a.policy) + " h" + num(a.hashMode) + " l" + std::to_string(a.level) + "=" + num(got.res) + "/" + num(got.result) + "/" + num(got.error); trace += what + " "; verifies++; verdictKinds.insert(num(got.res) + "/" + num(got.result));
             // the same verification on a fresh context with a freshly parsed copy (the simulated network is stateless, so it may be shared)
             VRes want = freshVerify(pool[i].birth, pool[i].doc, a, withFile ? pubFileBytes : Bytes());
